@@ -5,7 +5,8 @@
    in_range_T, xsd_type_names: translated from datatypes.py on every run (gen/Gen_XsdTables.v). *)
 From Coq Require Import List ZArith Bool Ascii String.
 From Basyx Require Import model.XsdBase model.XsdRe model.XsdLex model.Xsd gen.Gen_XsdTables
-  model.XsdBin proofs.XsdTableProofs proofs.XsdIntProofs proofs.XsdDateFacts proofs.XsdDateProofs proofs.XsdBinProofs.
+  model.XsdBin model.XsdDur model.XsdNum proofs.XsdTableProofs proofs.XsdIntProofs proofs.XsdDateFacts proofs.XsdDateProofs proofs.XsdBinProofs
+  proofs.XsdDurProofs proofs.XsdNumProofs.
 Import ListNotations.
 Local Open Scope Z_scope.
 
@@ -187,3 +188,65 @@ Example C06_binary_examples :
   parse_base64 (L "!!aGk=") = Err ValueError /\ parse_base64 (L " a G k = ") = Ok (L "hi") /\
   print_hex (L "hi") = L "6869" /\ parse_hex (L "ab cd") = Err ValueError /\ parse_hex (L " 6A6b ") = Ok (L "jk").
 Proof. vm_compute. repeat split. Qed.
+
+(* ---- duration (relativedelta with integer relative fields).  [fixed] = what the relativedelta constructor
+   guarantees (|months| <= 11, |hours| <= 23, |minutes|,|seconds| <= 59, |microseconds| <= 999999; years and days
+   unbounded); all field combinations and both signs: every such value whose non-zero fields share one sign ... *)
+Theorem C06_duration_roundtrip : forall v,
+  fixed v /\ (all_fields (fun x => 0 <= x) v \/ all_fields (fun x => x <= 0) v) ->
+  exists s, print_duration v = Ok s /\ parse_duration s = Ok v /\ valid_xsd_duration s = true.
+Proof. exact dur_roundtrip. Qed.
+(* ... and a value with fields of different signs is refused (no XSD duration denotes it field by field) *)
+Theorem C06_duration_mixed_signs : forall v x y, fixed v -> In x (fields v) -> In y (fields v) -> x < 0 -> 0 < y ->
+  print_duration v = Err ValueError.
+Proof. exact dur_mixed_rejected. Qed.
+Example C06_duration_examples :
+  print_duration (mkDur 0 1347 0 0 0 0 0) = Ok (L "P112Y3M") /\
+  print_duration (mkDur 0 0 0 0 0 (-1) (-500000)) = Ok (L "-PT1.5S") /\
+  parse_duration (L "-PT1.5S") = Ok (mkDur 0 0 0 0 0 (-1) (-500000)) /\
+  print_duration (mkDur 9007199254740993 0 0 0 0 0 17) = Ok (L "P9007199254740993YT0.000017S") /\
+  parse_duration (L "PT0.000017S") = Ok (mkDur 0 0 0 0 0 0 17) /\
+  print_duration (mkDur 0 (-5) 3 0 0 0 0) = Err ValueError /\
+  parse_duration (L "P") = Err ValueError /\ parse_duration (L "P1YT") = Err ValueError /\
+  valid_xsd_duration (L "PT") = false.
+Proof. vm_compute. repeat split. Qed.
+
+(* ---- decimal: a finite Decimal (-1)^neg * coef * 10^exp of ANY exponent is written without exponent as a valid
+   literal; reading it gives the same number ([dec_reread]: same sign and coefficient * 10^exponent, the exponent
+   normalised to <= 0 - decimal.Decimal equality is numeric) *)
+Theorem C06_decimal_roundtrip : forall v, 0 <= dec_coef v ->
+  exists s, print_decimal v = Ok s /\ parse_decimal s = Ok (dec_reread v) /\ valid_xsd_decimal s = true.
+Proof. exact decimal_roundtrip. Qed.
+Theorem C06_decimal_same_number : forall v, 0 <= dec_coef v ->
+  dec_neg (dec_reread v) = dec_neg v /\ dec_exp (dec_reread v) <= 0 /\
+  (dec_exp v <= 0 -> dec_reread v = v) /\
+  (0 < dec_exp v -> dec_coef (dec_reread v) = dec_coef v * 10 ^ dec_exp v /\ dec_exp (dec_reread v) = 0).
+Proof. exact dec_reread_value. Qed.
+Theorem C06_decimal_reject_literal : forall s, valid_xsd_decimal s = false -> parse_decimal s = Err ValueError.
+Proof. exact decimal_reject_literal. Qed.
+Example C06_decimal_examples :
+  print_decimal (mkDec false 1 5) = Ok (L "100000") /\ print_decimal (mkDec true 1 (-10)) = Ok (L "-0.0000000001") /\
+  print_decimal (mkDec false 12345 (-2)) = Ok (L "123.45") /\ parse_decimal (L "1E+5") = Err ValueError /\
+  parse_decimal (L "NaN") = Err ValueError /\ parse_decimal (L " +.50 ") = Ok (mkDec false 50 (-2)).
+Proof. vm_compute. repeat split. Qed.
+
+(* ---- float, double.  Binary floating point is not modelled: F, repr and float() are parameters, and the two
+   facts about CPython that the round trip needs are premises (the shape of repr(f), and float(repr(f)) == f with
+   the exponent marker in upper case).  NaN, INF, -INF are covered by cases. *)
+Theorem C06_float_roundtrip :
+  forall (F : Type) (py_repr : F -> str) (py_float : str -> option F),
+  (forall f, repr_form "e" (py_repr f)) ->
+  (forall f, py_float (translate_float (py_repr f)) = Some f) ->
+  forall v, parse_float F py_float (print_float F py_repr v) = Ok v /\ valid_xsd_float (print_float F py_repr v) = true.
+Proof. exact float_roundtrip. Qed.
+Example C06_float_examples :
+  parse_float_class (L "nan") = Err ValueError /\ parse_float_class (L "infinity") = Err ValueError /\
+  parse_float_class (L "1_0.5") = Err ValueError /\ parse_float_class (L "NaN") = Ok 1 /\
+  parse_float_class (L "-INF") = Ok 3 /\ parse_float_class (L " 1.5E-3 ") = Ok 0 /\
+  repr_form "e" (L "-1.5e-07").
+Proof.
+  repeat split; try (vm_compute; reflexivity).
+  exact (RF "e" true (L "1") (L ".5") (L "e-07") ltac:(discriminate) eq_refl
+            (FF1 (L "5") ltac:(discriminate) eq_refl)
+            (EF1 "e" (L "-") (L "07") (or_intror (or_intror eq_refl)) ltac:(discriminate) eq_refl)).
+Qed.
